@@ -1,6 +1,9 @@
 package netmc
 
 import (
+	"syscall"
+	"net"
+	"context"
 	"errors"
 
 	"go.minekube.com/gate/pkg/edition/java/proto/packet"
@@ -43,7 +46,16 @@ func VerifHarness_TeardownOnce() {
 // A write error closes the connection: the failing write returns the error, the teardown runs once.
 func VerifHarness_WriteErrorCloses() {
 	h := &zzHandler{}
-	wr := &zzWriter{failNext: errors.New("write: connection reset")}
+	// every class of write error: a plain one, the peer's reset and "use of closed connection" (the
+	// two the logger treats as routine), wrapped the way the net package wraps them
+	werr := error(errors.New("write: broken pipe"))
+	switch zz.Choose(3) {
+	case 1:
+		werr = &net.OpError{Op: "write", Net: "tcp", Err: syscall.ECONNRESET}
+	case 2:
+		werr = &net.OpError{Op: "write", Net: "tcp", Err: net.ErrClosed}
+	}
+	wr := &zzWriter{failNext: werr}
 	c, base := newZZMinecraftConn(767, state.Play, &zzReader{}, wr, h)
 	var err error
 	switch zz.Choose(4) {
@@ -60,6 +72,31 @@ func VerifHarness_WriteErrorCloses() {
 	zz.Assert(h.disconnected == 1 && base.closes == 1 && Closed(c), "a write error did not tear the connection down exactly once")
 	zz.Assert(c.WritePacket(&packet.KeepAlive{}) == ErrClosedConn, "a write after the failure did not report the connection as closed")
 	zz.Reach("write-error")
+}
+
+// The connection's context is derived from its owner's (the proxy's lifecycle context): when the owner
+// cancels first, a later Close (or the end of the read loop, or a write error) still tears the connection
+// down exactly once - the handler is told and the socket is closed.
+func VerifHarness_CloseAfterOwnerCancelled() {
+	h := &zzHandler{}
+	wr := &zzWriter{}
+	c, base := newZZMinecraftConn(767, state.Play, &zzReader{}, wr, h)
+	parent, cancelParent := context.WithCancel(context.Background())
+	c.ctx, c.cancelCtx = context.WithCancel(parent)
+	cancelParent()
+	zz.Assert(Closed(c), "a connection whose owner was cancelled does not count as closed")
+	switch zz.Choose(3) {
+	case 0:
+		_ = c.Close()
+	case 1:
+		_ = CloseUnknown(c)
+	case 2:
+		c.startReadLoop() // the peer is gone: the loop ends and cleans up
+	}
+	zz.Assert(h.disconnected == 1 && base.closes == 1, "closing a connection after its owner's context was cancelled did not run the teardown (handler not told, socket left open)")
+	_ = c.Close()
+	zz.Assert(h.disconnected == 1 && base.closes == 1, "a second close ran the teardown again")
+	zz.Reach("owner-cancelled")
 }
 
 type zzCustomPanic struct{ code int }
